@@ -11,7 +11,7 @@ namespace Client
 def Conn.idle (c : Conn) : Bool := c.reader && c.writer
 
 /-- the call object has not been sent yet -/
-def MCall.fresh (m : MCall) : Prop := ∃ meth params, m.method = some meth ∧ m.request = some params
+def MCall.fresh (m : MCall) : Prop := ∃ meth params, m.method = some meth ∧ m.request = some params ∧ m.unser = false
 
 def MCall.spent (m : MCall) : MCall := { m with method := none, request := none }
 
@@ -20,12 +20,20 @@ def MCall.spent (m : MCall) : MCall := { m with method := none, request := none 
 /-- what `send` does when it does not get as far as writing -/
 theorem send_not_idle (p : Peer) (ow mo up : Bool) (s : CS) (h : s.conn.idle = false) :
     (send p ow mo up s).2 = { s with call := s.call.spent } ∧
-    ((send p ow mo up s).1 = some .connectionBusy ∨ (send p ow mo up s).1 = some .methodCalledAlready) := by
+    ((send p ow mo up s).1 = some .connectionBusy ∨ (send p ow mo up s).1 = some .methodCalledAlready ∨
+     (send p ow mo up s).1 = some .badJson) := by
   unfold send
   have h' : (!s.conn.reader || !s.conn.writer) = true := by
     simp [Conn.idle] at h
     cases hr : s.conn.reader <;> cases hw : s.conn.writer <;> simp_all
-  cases hm : s.call.method <;> cases hq : s.call.request <;> simp [h', MCall.spent]
+  cases hm : s.call.method <;> cases hq : s.call.request <;> cases hu : s.call.unser <;> simp [h', MCall.spent]
+
+/-- the request does not serialize: refused before the connection is looked at -/
+theorem send_unser (p : Peer) (ow mo up : Bool) (s : CS) (meth : String) (params : Json)
+    (hm : s.call.method = some meth) (hq : s.call.request = some params) (hu : s.call.unser = true) :
+    send p ow mo up s = (some .badJson, { s with call := s.call.spent }) := by
+  unfold send
+  simp [hm, hq, hu, MCall.spent]
 
 theorem send_spent (p : Peer) (ow mo up : Bool) (s : CS) (h : s.call.method = none ∨ s.call.request = none) :
     send p ow mo up s = (some .methodCalledAlready, { s with call := s.call.spent }) := by
@@ -36,7 +44,7 @@ theorem send_spent (p : Peer) (ow mo up : Bool) (s : CS) (h : s.call.method = no
 
 /-- `send` on an idle connection with a fresh call object whose write succeeds -/
 theorem send_ok (p : Peer) (ow mo up : Bool) (s : CS) (meth : String) (params : Json)
-    (hm : s.call.method = some meth) (hq : s.call.request = some params)
+    (hm : s.call.method = some meth) (hq : s.call.request = some params) (hu : s.call.unser = false)
     (hi : s.conn.idle = true) (hw : s.wire.canWrite = true) :
     send p ow mo up s =
       (none,
@@ -46,11 +54,11 @@ theorem send_ok (p : Peer) (ow mo up : Bool) (s : CS) (meth : String) (params : 
   unfold send
   simp [Conn.idle] at hi
   obtain ⟨hr, hwr⟩ := hi
-  cases ow <;> simp [hm, hq, hr, hwr, hw, MCall.spent]
+  cases ow <;> simp [hm, hq, hu, hr, hwr, hw, MCall.spent]
 
 /-- … whose write fails -/
 theorem send_wfail (p : Peer) (ow mo up : Bool) (s : CS) (meth : String) (params : Json)
-    (hm : s.call.method = some meth) (hq : s.call.request = some params)
+    (hm : s.call.method = some meth) (hq : s.call.request = some params) (hu : s.call.unser = false)
     (hi : s.conn.idle = true) (hw : s.wire.canWrite = false) :
     send p ow mo up s =
       (some .io,
@@ -60,7 +68,7 @@ theorem send_wfail (p : Peer) (ow mo up : Bool) (s : CS) (meth : String) (params
   unfold send
   simp [Conn.idle] at hi
   obtain ⟨hr, hwr⟩ := hi
-  cases ow <;> simp [hm, hq, hr, hwr, hw, MCall.spent]
+  cases ow <;> simp [hm, hq, hu, hr, hwr, hw, MCall.spent]
 
 /-- after any `send` the call object is spent -/
 theorem send_spends (p : Peer) (ow mo up : Bool) (s : CS) :
@@ -70,8 +78,10 @@ theorem send_spends (p : Peer) (ow mo up : Bool) (s : CS) :
   split
   · simp
   · split
-    · cases ow <;> simp
-    · cases ow <;> simp
+    · simp
+    · split
+      · cases ow <;> simp
+      · cases ow <;> simp
 
 /-! ### `recv` -/
 
